@@ -156,6 +156,10 @@ var CatalogFiles = Files{
 	"p_laynumbad.vuego":      "---\nlayout: cat_num2\n---\n<p>{{ canary }}</p>",
 	"layouts/cat_num2.vuego": "---\nlayout: 2025\n---\n<article v-html=\"content\"></article>",
 	"layouts/2025.vuego":     "<html><head><title>{{ canary | nosuch4 }}</title></head><body v-html=\"content\"></body></html>",
+	// raw-text elements whose content comes from data that contains their own end tag (nothing can be escaped there)
+	"p_rawend.vuego": `<h1>{{ title }}</h1><p>{{ canary }}</p><script>const note = "{{ endscript }}";</script><style>{{ endstyle }}</style><p>tail</p>`,
+	// rows of two struct types that have the same name (declared in two functions) and their tags at other positions
+	"p_rows.vuego": `<ul><li v-for="r in rows" :title="r.name">{{ r.name }}|{{ r.qty }}|<b v-if="r.name == 'bob'">b</b></li></ul><p>{{ canary }}</p>`,
 	// two pages in different directories name the same layout: one has a file of that name next to it
 	"blog/p_post.vuego":        "---\nlayout: cat_wrap\n---\n<p>post {{ canary }}</p>",
 	"blog/cat_wrap.vuego":      "<section class=\"blog\" v-html=\"content\"></section>",
@@ -210,6 +214,9 @@ var Catalog = func() []Program {
 		{Name: "wrap", Page: "p_wrap.vuego", Data: d},
 		{Name: "inconce", Page: "p_inconce.vuego", Data: d},
 		{Name: "laynum", Page: "p_laynum.vuego", Data: d, HasFM: true, Layout: true},
+		{Name: "rawend", Page: "p_rawend.vuego", Data: catData(map[string]any{"endscript": "</script><img src=x>", "endstyle": "a{} </STYLE><b>"})},
+		{Name: "rowsorders", Page: "p_rows.vuego", Data: catRowsOrders},
+		{Name: "rowsusers", Page: "p_rows.vuego", Data: catRowsUsers},
 		{Name: "laysibling", Page: "blog/p_post.vuego", Data: d, HasFM: true, Layout: true},
 		{Name: "layshared", Page: "docs/p_page.vuego", Data: d, HasFM: true, Layout: true},
 		{Name: "laynumbad", Page: "p_laynumbad.vuego", Data: d, Fails: true, HasFM: true, Layout: true},
@@ -225,6 +232,25 @@ var Catalog = func() []Program {
 	sort.SliceStable(ps, func(i, j int) bool { return false })
 	return ps
 }()
+
+// catRowsOrders / catRowsUsers: each declares its own `type row struct` - two types that print
+// the same (checks.row) with the name and qty tags on fields at other positions.
+func catRowsOrders(canary string) map[string]any {
+	type row struct {
+		Name string `json:"name"`
+		Qty  int    `json:"qty"`
+	}
+	return catData(map[string]any{"rows": []row{{"nuts", 7}, {"bolts", 8}}})(canary)
+}
+
+func catRowsUsers(canary string) map[string]any {
+	type row struct {
+		ID   int    `json:"id"`
+		Qty  string `json:"qty"`
+		Name string `json:"name"`
+	}
+	return catData(map[string]any{"rows": []row{{1, "one", "alice"}, {2, "two", "bob"}}})(canary)
+}
 
 func programByName(n string) *Program {
 	for i := range Catalog {
